@@ -106,7 +106,9 @@ def errOK (s : Str) (line : String) : List Viol :=
       match tokenOfMsg msg with
       | some tok =>
         -- a NEWLINE token reported at end of input stands for the implicit final newline
-        if tok.isPrefixOf (s.drop pos.toNat) || (tok == ['\n'] && pos.toNat == s.length) ||
+        -- (an operator may be split by a line continuation: `|\<newline>|` is the token `||`)
+        if tok.isPrefixOf (s.drop pos.toNat) || tok.isPrefixOf (Spec.stripContinuations (s.drop pos.toNat)) ||
+           (tok == ['\n'] && pos.toNat == s.length) ||
            (tok.all isDigit && (s.drop pos.toNat).head?.map isDigit == some true) then []
         else ["token-not-at-position"]
       | none =>
